@@ -23,7 +23,8 @@ import (
 // several-markers form api forwards to with the one-element list of its marker.
 type zipWalk struct {
 	api, walk *ssa.Function
-	anyPrefix *ssa.Function // several-markers form: the "some marker is a prefix" predicate
+	fixed     map[*ssa.Function]bool // two-parameter entries (raw, marker) that forward to walk with this constant first-entry flag
+	anyPrefix *ssa.Function          // several-markers form: the "some marker is a prefix" predicate
 	anyOK     bool          // ... has the verified shape
 	flagOK    bool          // ... and the forwarder hands its flag on unchanged
 }
@@ -79,12 +80,36 @@ func zipWalker(c *core.Ctx, tm *tree.Model) (*zipWalk, *tree.Node) {
 	}
 	z := zs[0]
 	var w *ssa.Function
+	var fixed map[*ssa.Function]bool
 	for _, ch := range z.Children {
 		if ch.DetFn == nil {
 			continue
 		}
 		for _, ci := range core.Calls(ch.DetFn) {
 			g := ci.Common().StaticCallee()
+			if g != nil && core.InMod(g) && len(g.Params) == 2 && core.IsByteSlice(g.Params[0].Type()) && core.IsByteSlice(g.Params[1].Type()) {
+				// a named entry that fixes the flag: return walk(raw, marker, const)
+				if rs := core.Returns(g); len(g.Blocks) == 1 && len(rs) == 1 {
+					if fc, ok := rs[0].Results[0].(*ssa.Call); ok {
+						h := fc.Call.StaticCallee()
+						if h != nil && core.InMod(h) && len(h.Params) == 3 && len(fc.Call.Args) == 3 && fc.Call.Args[0] == ssa.Value(g.Params[0]) && fc.Call.Args[1] == ssa.Value(g.Params[1]) {
+							if flag, isK := core.ConstBool(fc.Call.Args[2]); isK {
+								nc := 0
+								for range core.Calls(g) {
+									nc++
+								}
+								if nc == 1 {
+									if fixed == nil {
+										fixed = map[*ssa.Function]bool{}
+									}
+									fixed[g] = flag
+									g = h
+								}
+							}
+						}
+					}
+				}
+			}
 			if g != nil && core.InMod(g) && len(g.Params) == 3 && core.IsByteSlice(g.Params[0].Type()) && core.IsByteSlice(g.Params[1].Type()) {
 				if w != nil && w != g {
 					core.Bail("two different zip entry walkers: %s, %s", w.Name(), g.Name())
@@ -96,7 +121,7 @@ func zipWalker(c *core.Ctx, tm *tree.Model) (*zipWalk, *tree.Node) {
 	if w == nil {
 		core.Bail("zip entry-name walker not found")
 	}
-	zw := &zipWalk{api: w, walk: w}
+	zw := &zipWalk{api: w, walk: w, fixed: fixed}
 	// forwarder: return walk(raw, [][]byte{marker}, flag)
 	if rs := core.Returns(w); len(w.Blocks) == 1 && len(rs) == 1 {
 		if call, ok := rs[0].Results[0].(*ssa.Call); ok {
@@ -195,9 +220,10 @@ var ruleZipMarkers = &core.Rule{ID: "R19.1", Min: 8,
 			var calls []ssa.CallInstruction
 			direct := false
 			for _, ci := range core.Calls(n.DetFn) {
-				if ci.Common().StaticCallee() == zw.api {
+				g := ci.Common().StaticCallee()
+				if _, isFixed := zw.fixed[g]; g != nil && (g == zw.api || isFixed) {
 					calls = append(calls, ci)
-				} else if ci.Common().StaticCallee() == zw.walk {
+				} else if g == zw.walk {
 					direct = true
 				}
 			}
@@ -211,7 +237,12 @@ var ruleZipMarkers = &core.Rule{ID: "R19.1", Min: 8,
 			}
 			a := calls[0].Common().Args
 			mk, okm := detEnv(n).foldBytes(a[1]) // a constant, or folded through the constructor that built the detector
-			mso, okb := core.ConstBool(a[2])
+			var mso, okb bool
+			if flag, isFixed := zw.fixed[calls[0].Common().StaticCallee()]; isFixed {
+				mso, okb = flag, true
+			} else {
+				mso, okb = core.ConstBool(a[2])
+			}
 			okRaw := a[0] == ssa.Value(n.DetFn.Params[0])
 			okRet := false
 			for _, r := range core.Returns(n.DetFn) {
@@ -245,7 +276,13 @@ var ruleZipMarkers = &core.Rule{ID: "R19.1", Min: 8,
 			n := 0
 			if apk[0].DetFn != nil {
 				for _, ci := range core.Calls(apk[0].DetFn) {
-					if ci.Common().StaticCallee() == zw.api || ci.Common().StaticCallee() == zw.walk {
+					g := ci.Common().StaticCallee()
+					if flag, isFixed := zw.fixed[g]; isFixed && g != nil {
+						n++
+						s.Check(!flag && ci.Common().Args[0] == ssa.Value(apk[0].DetFn.Params[0]), fmt.Sprintf("apk marker call #%d", n), c.Pos(ci.Pos()), "unmodified header, first-entry list off", "the APK detector walks something other than the unmodified header or applies the OOXML first-entry list")
+						continue
+					}
+					if g == zw.api || g == zw.walk {
 						n++
 						mso, ok := core.ConstBool(ci.Common().Args[2])
 						s.Check(ok && !mso && ci.Common().Args[0] == ssa.Value(apk[0].DetFn.Params[0]), fmt.Sprintf("apk marker call #%d", n), c.Pos(ci.Pos()), "unmodified header, first-entry list off", "the APK detector walks something other than the unmodified header or applies the OOXML first-entry list")
